@@ -31,6 +31,19 @@ ResidualR(A, f, x) ==
     [i \in Idx(A.n) |-> RSub(f[i], FoldLeft(LAMBDA acc, p : RAdd(acc, RMul(R(A.val[p]), x[A.col[p]])),
                                              RZero, Rng(Ptr(A, i) + 1, Ptr(A, i + 1))))]
 
+\* ---- overflow-lean arithmetic (same values as Rat's RAdd / RMul): common factors are
+\* cancelled *before* multiplying, so that vectors sharing a denominator D stay near D
+\* instead of D^2 (TLC integers are 32-bit)
+QAdd(a, b) == LET g == GCD(a[2], b[2]) IN Norm(a[1] * (b[2] \div g) + b[1] * (a[2] \div g), (a[2] \div g) * b[2])
+QSub(a, b) == QAdd(a, RNeg(b))
+QMul(a, b) == IF a[1] = 0 \/ b[1] = 0 THEN RZero
+              ELSE LET g1 == GCD(RAbsI(a[1]), b[2])
+                       g2 == GCD(RAbsI(b[1]), a[2])
+                   IN  <<(a[1] \div g1) * (b[1] \div g2), (a[2] \div g2) * (b[2] \div g1)>>
+QDiv(a, b) == QMul(a, RInv(b))
+QSumRange(t(_), lo, hi) == FoldLeft(LAMBDA acc, k : QAdd(acc, t(k)), RZero, Rng(lo, hi))
+QSumSeq(s) == FoldLeft(LAMBDA acc, v : QAdd(acc, v), RZero, s)
+
 \* ---- reference solve: Gauss-Jordan with row exchanges (first non-zero pivot); the
 \* meaning of "x = A^-1 f", independent of every transcribed algorithm.
 \* Works on the augmented rows  M[i] = <row i | f_i>  (functions on 0..n).
